@@ -148,3 +148,17 @@ pub fn fnv(data: &[u8]) -> u64 {
     }
     h
 }
+
+/// Reference derivation of the classic (unsalted) contract address:
+/// sha256(sha256("module") ‖ "wasm\0" ‖ code_id_be ‖ instance_id_be)
+pub fn classic_canonical(code_id: u64, instance_id: u64) -> cosmwasm_std::CanonicalAddr {
+    use sha2::{Digest, Sha256};
+    let mut key = b"wasm\0".to_vec();
+    key.extend_from_slice(&code_id.to_be_bytes());
+    key.extend_from_slice(&instance_id.to_be_bytes());
+    let module = Sha256::digest(b"module");
+    let mut h = Sha256::new();
+    h.update(module);
+    h.update(&key);
+    h.finalize().to_vec().into()
+}
